@@ -1747,6 +1747,7 @@ func main() {
 			"a real FileSystemLoader INSIDE a ChainLoader in front of, and behind, the in-memory loader that holds the same names (delL1 removes the file, modL1 re-creates it) / \"+b\" only: three loaders, the third always holding a usable copy of the name), start state (seeded / empty loaders / only the loader registered last has the name) and registration API " +
 			"(RegisterString / RegisterTemplate / RegisterCompiledTemplate), each replayed on a fresh engine and compared step by step with the reference machine; " +
 			"phase B: breadth-first search from the start state over the reference states (versions and timestamps reduced to ranks), to closure in the thorough tier. " +
+			"family K (k.go): cache on, auto-reload on, two timestamp-aware loaders whose clocks are independent of each other (a put moves the loader's own clock by one or jumps above every time either loader has reported), one name: every string of length 7 (thorough: 8) over put K1 small/jump, put K2 small/jump, remove from K1, render (thorough: and Load), each replayed on a fresh engine and compared at every lookup. " +
 			"Non-trivial = the explored subtree contains at least one Load/Render whose result the statement determines",
 		Assumptions: []string{
 			"histories longer than the depth bound are covered only by phase B, which assumes that the engine's cache state is a function of the reference state and the cache listing",
@@ -1844,6 +1845,7 @@ func run(t *vlib.T) {
 			rec(nil)
 		}
 	}
+	familyK(t) // two timestamp-aware loaders with a clock each (k.go); small, so it runs first
 	phaseA(false)
 	phaseB()
 	phaseA(true)
